@@ -66,6 +66,20 @@ def _may_paint(doc, ad):
   return out
 
 
+def _take_apart(isd):
+  """Empty every region of a snapshot and strip the styles of what it held."""
+  if isd is None:
+    return
+  for region in list(isd.iter_regions()):
+    for e in list(region.dfs_iterator()):
+      for prop in list(e.iter_styles()):
+        try:
+          e.set_style(prop, None)
+        except Exception:  # pylint: disable=broad-except
+          pass
+    region.remove_children()
+
+
 def _observe_doc(doc, ad, rid, times, detail, use_cache):
   from .core import AltContext, alt_for
   with AltContext(alt_for(("isd", rid))):
@@ -104,8 +118,13 @@ def _observe_doc_in_context(doc, ad, rid, times, detail, use_cache):
   obsc = []
   params = []
   names = region_names(ad)
-  for t in times:
+  for tno, t in enumerate(times):
     isd = ISD.from_model(doc, t0 + Fraction(t, D), sig) if snap_cached else ISD.from_model(doc, t0 + Fraction(t, D))
+    if snap_cached and tno % 3 == 1 and isd is not None:
+      # a snapshot belongs to whoever asked for it: this one is taken apart (as the writers' filters take theirs apart) and the
+      # same snapshot is asked for again - what is observed is the second one
+      _take_apart(isd)
+      isd = ISD.from_model(doc, t0 + Fraction(t, D), sig)
     obs.append(project_isd(isd, detail, names))
     params.append(doc_params(isd))
     if use_cache:
